@@ -135,11 +135,27 @@ def coq_result(r):
     return "(RcOk [%s])" % "; ".join(items)
 
 
-def coq_case(impl, res):
+def dest_info(impl, form):
+    """-> (dest_reg_names, fulls as the implementation's parser helper gives them ([] when there is no helper),
+    fulls as the independent register tables give them)"""
     from osaca.parser.register import RegisterOperand
-    form = res["form"]
     so = form.semantic_operands or {"destination": [], "src_dst": []}
-    dests = [full_name(o) for o in list(so["destination"]) + list(so["src_dst"]) if isinstance(o, RegisterOperand)]
+    regs = [o for o in list(so["destination"]) + list(so["src_dst"]) if isinstance(o, RegisterOperand)]
+    dests = [full_name(o) for o in regs]
+    helper = getattr(impl.parser, "get_full_width_reg_name", None)
+    fulls = []
+    if helper is not None and form.mnemonic is not None:
+        try:
+            fulls = [f for f in (helper(o) for o in regs) if f is not None]
+        except NotImplementedError:
+            fulls = []
+    want = [f for f in (full_width_name(impl.isa, d) for d in dests) if f is not None] if form.mnemonic is not None else []
+    return dests, fulls, want
+
+
+def coq_case(impl, res):
+    form = res["form"]
+    dests, fulls, _ = dest_info(impl, form)
     ops = form.operands or []
     e = res["isa_data"]
     if e is None:
@@ -149,9 +165,9 @@ def coq_case(impl, res):
         dst = "[%s]" % "; ".join("true" if getattr(o, "destination", False) else "false" for o in e.operands)
         isa = "(isa_of %s %s %d%%nat %s %s)" % ("true" if impl.isa == "x86" else "false", cs(name), idx, dst,
                                               "true" if e.operation is not None else "false")
-    return "(mkCase %s [%s] [%s] %s %s %s)" % (
-        "true" if form.mnemonic is not None else "false", "; ".join(cs(d) for d in dests), "; ".join(coq_iop(o) for o in ops),
-        isa, coq_result(res["full"]), coq_result(res["post"]))
+    return "(mkCase %s [%s] [%s] [%s] %s %s %s)" % (
+        "true" if form.mnemonic is not None else "false", "; ".join(cs(d) for d in dests), "; ".join(cs(f) for f in fulls),
+        "; ".join(coq_iop(o) for o in ops), isa, coq_result(res["full"]), coq_result(res["post"]))
 
 
 SHARD_HEADER = """From Coq Require Import ZArith List Bool String.
@@ -165,13 +181,13 @@ Definition isa_of (x86 : bool) (name : string) (idx : nat) (dst : list bool) (ha
                 | None => None                      (* the implementation used an operation the table does not have *)
                 end
   else Some (Some (mkRC dst None)).
-Record rcase := mkCase { c_mnem : bool; c_dests : list string; c_ops : list iop; c_isa : option (option rc_entry);
+Record rcase := mkCase { c_mnem : bool; c_dests : list string; c_fulls : list string; c_ops : list iop; c_isa : option (option rc_entry);
                          c_full : rc_result; c_post : rc_result }.
 Definition check (c : rcase) : bool :=
   match c_isa c with
   | None => false
-  | Some isa => andb (rc_eqb (get_reg_changes (c_mnem c) (c_dests c) (c_ops c) isa false) (c_full c))
-                     (rc_eqb (get_reg_changes (c_mnem c) (c_dests c) (c_ops c) isa true) (c_post c))
+  | Some isa => andb (rc_eqb (get_reg_changes (c_mnem c) (c_dests c) (c_fulls c) (c_ops c) isa false) (c_full c))
+                     (rc_eqb (get_reg_changes (c_mnem c) (c_dests c) (c_fulls c) (c_ops c) isa true) (c_post c))
   end.
 """
 SHARD_FOOTER = """
@@ -251,7 +267,9 @@ def other_instances(rng, isa, n):
                 lambda: "vaddpd %ymm0, %ymm1, %ymm2", lambda: "movq %xmm0, " + R(), lambda: "jmp .L3", lambda: "nop", lambda: "ret",
                 lambda: "addq $foo, " + R(), lambda: "shlq $3, " + R(), lambda: ".L3:", lambda: ".align 16",
                 lambda: "# just a comment", lambda: "movq %s, foo(%%rip)" % R(),
-                lambda: "addq %s, %s" % (mem(), R()), lambda: "movslq %s, %s" % (E(), R())]
+                lambda: "addq %s, %s" % (mem(), R()), lambda: "movslq %s, %s" % (E(), R()),
+                lambda: "addw $8, %ax", lambda: "addb $1, %al", lambda: "movb $1, %ah", lambda: "addl $%d, %%r8d" % rng.choice(IMMS),
+                lambda: "xorl %s, %s" % ((lambda r: (r, r))(E())), lambda: "movw %ax, %bx", lambda: "decw %cx", lambda: "movl %s, %s" % (mem(), E())]
     else:
         X = lambda: rng.choice(AX[:3])
         W = lambda: rng.choice(AW)
@@ -272,43 +290,68 @@ def other_instances(rng, isa, n):
                 lambda: "ldr d0, [%s], #8" % X(), lambda: "ldr q1, [%s, #32]!" % X(), lambda: "ldr x1, [sp], #16", lambda: "str x1, [sp, #-16]!",
                 lambda: "mov %s, #%d" % (X(), abs(K())), lambda: "mov %s, %s" % (W(), W()), lambda: "fadd d0, d1, d2", lambda: "b.ne .L4",
                 lambda: "cmp %s, #3" % X(), lambda: ".L4:", lambda: ".align 4", lambda: "// comment", lambda: "ret", lambda: "nop",
-                lambda: "madd %s, %s, %s, %s" % (X(), X(), X(), X()), lambda: "ldr %s, [%s, foo]!" % two(), lambda: "neg %s, %s" % (X(), X())]
+                lambda: "madd %s, %s, %s, %s" % (X(), X(), X(), X()), lambda: "ldr %s, [%s, foo]!" % two(), lambda: "neg %s, %s" % (X(), X()),
+                lambda: "ldr w%s, [x%s], #4" % tuple(rng.sample("123", 2)), lambda: "ldr w%s, [x%s, #4]!" % tuple(rng.sample("123", 2)),
+                lambda: "ldr w%s, [x%s, #8]" % tuple(rng.sample("123", 2)), lambda: "ldp w4, w5, [%s], #8" % X(), lambda: "mov %s, #7" % W(),
+                lambda: "sub %s, %s, #8" % (W(), W()), lambda: "mul %s, %s, %s" % (W(), W(), W())]
     for i in range(n):
         out.append(tmpl[i % len(tmpl)]())
     return out
 
 
 # ------------------------------------------------------------------ the independent oracle: a tiny concrete interpreter
-X86_REGS = {}
+KNOWN_SUBREG = "store-load-edge-spurious:subregister-write"
+
+X86_REGS = {}                      # name -> (family, width, shift)
 for _b in "abcd":
-    X86_REGS["r%sx" % _b] = ("g" + _b, 64)
-    X86_REGS["e%sx" % _b] = ("g" + _b, 32)
+    X86_REGS["r%sx" % _b] = ("g" + _b, 64, 0)
+    X86_REGS["e%sx" % _b] = ("g" + _b, 32, 0)
+    X86_REGS["%sx" % _b] = ("g" + _b, 16, 0)
+    X86_REGS["%sl" % _b] = ("g" + _b, 8, 0)
+    X86_REGS["%sh" % _b] = ("g" + _b, 8, 8)
 for _b in ("si", "di", "sp", "bp"):
-    X86_REGS["r" + _b] = ("g" + _b, 64)
-    X86_REGS["e" + _b] = ("g" + _b, 32)
+    X86_REGS["r" + _b] = ("g" + _b, 64, 0)
+    X86_REGS["e" + _b] = ("g" + _b, 32, 0)
+    X86_REGS[_b] = ("g" + _b, 16, 0)
+    X86_REGS[_b + "l"] = ("g" + _b, 8, 0)
 for _n in range(8, 16):
-    X86_REGS["r%d" % _n] = ("g%d" % _n, 64)
-    X86_REGS["r%dd" % _n] = ("g%d" % _n, 32)
+    X86_REGS["r%d" % _n] = ("g%d" % _n, 64, 0)
+    X86_REGS["r%dd" % _n] = ("g%d" % _n, 32, 0)
+    X86_REGS["r%dw" % _n] = ("g%d" % _n, 16, 0)
+    X86_REGS["r%db" % _n] = ("g%d" % _n, 8, 0)
+X86_FULL = {v[0]: k for k, v in X86_REGS.items() if v[1] == 64}
 
 
 def reg_info(isa, name):
-    """-> (family, width) of a general purpose register name as get_reg_changes spells it, or None"""
+    """-> (family, width, shift) of a general purpose register name as get_reg_changes spells it, or None"""
     if isa == "x86":
-        return X86_REGS.get(name)
-    m = re.fullmatch(r"([xw])(\d+|sp)", name)
+        return X86_REGS.get(name.lower())
+    m = re.fullmatch(r"([xw])(\d+|sp)", name.lower())
     if m:
-        return ("g" + m.group(2), 64 if m.group(1) == "x" else 32)
+        return ("g" + m.group(2), 64 if m.group(1) == "x" else 32, 0)
     return None
 
 
+def full_width_name(isa, name):
+    """independent of the implementation: the full-width (address-capable) register a narrower name is part of, else None"""
+    info = reg_info(isa, name)
+    if info is None or info[1] == 64:
+        return None
+    return X86_FULL[info[0]] if isa == "x86" else "x" + info[0][1:]
+
+
 def rd(isa, st, name):
-    fam, w = reg_info(isa, name)
-    return st[fam] & (M64 if w == 64 else M32)
+    fam, w, sh = reg_info(isa, name)
+    return (st[fam] >> sh) & ((1 << w) - 1)
 
 
 def wr(isa, st, name, v):
-    fam, w = reg_info(isa, name)
-    st[fam] = v & (M64 if w == 64 else M32)          # 32-bit writes zero-extend on both ISAs
+    fam, w, sh = reg_info(isa, name)
+    if w >= 32:
+        st[fam] = v & ((1 << w) - 1)                       # 32-bit writes zero-extend on both ISAs
+    else:
+        mask = ((1 << w) - 1) << sh                        # 16/8-bit writes keep the rest of the register
+        st[fam] = (st[fam] & ~mask & M64) | ((v << sh) & mask)
 
 
 def a64_name(tok):
@@ -356,7 +399,7 @@ def interpret(isa, text, rng):
     mn = parts[0].lower()
     ops = split_operands(parts[1]) if len(parts) > 1 else []
     if isa == "x86":
-        base = mn[:-1] if mn[-1] in "ql" and mn[:-1] in ("add", "sub", "sbb", "adc", "inc", "dec", "mov", "imul", "xor", "cmp", "lea", "neg", "shl", "xchg") else mn
+        base = mn[:-1] if mn[-1] in "qlwb" and mn[:-1] in ("add", "sub", "sbb", "adc", "inc", "dec", "mov", "imul", "xor", "cmp", "lea", "neg", "shl", "xchg") else mn
         P = [parse_x86_operand(o) for o in ops]
         gpr = lambda p: p[0] == "reg" and reg_info("x86", p[1]) is not None
 
@@ -425,7 +468,7 @@ def interpret(isa, text, rng):
             b = a64_name(m.group(1))
             inner, pre = m.group(2), m.group(3) == "!"
             is_load = base.startswith("ld")
-            if (pre or ops[i + 1:]) and is_load and any(a64_name(t.strip("{} ")) == b for t in ops[:i]):
+            if (pre or ops[i + 1:]) and is_load and any(isreg(t.strip("{} ")) and reg_info("aarch64", a64_name(t.strip("{} ")))[0] == reg_info("aarch64", b)[0] for t in ops[:i]):
                 return None                      # write-back base is also loaded: architecturally unpredictable
             if is_load:
                 for t in ops[:i]:
@@ -478,7 +521,7 @@ def interpret(isa, text, rng):
 
 
 def oracle_check(isa, d, A, B):
-    """dict d claims to describe A -> B.  Returns None or a description of the first wrong claim."""
+    """dict d claims to describe A -> B.  Returns None or (failure key, description of the first wrong claim)."""
     fams = set()
     for reg, ch in d.items():
         info = reg_info(isa, reg)
@@ -488,19 +531,25 @@ def oracle_check(isa, d, A, B):
         if ch is None:
             continue
         if "name" not in ch or type(ch.get("value")) is not int or reg_info(isa, ch["name"]) is None:
-            return "%s: malformed change %r" % (reg, ch)
-        mask = M64 if info[1] == 64 else M32
+            return "regchange-malformed", "%s: malformed change %r" % (reg, ch)
+        mask = (1 << info[1]) - 1
         want = (rd(isa, A, ch["name"]) + ch["value"]) & mask
         if rd(isa, B, reg) != want:
-            return "%s reported as %s%+d = %#x but the instruction leaves %#x" % (reg, ch["name"], ch["value"], want, rd(isa, B, reg))
+            return "regchange-wrong-constant", "%s reported as %s%+d = %#x but the instruction leaves %#x" % (reg, ch["name"], ch["value"], want, rd(isa, B, reg))
+    keys = {k.lower() for k in d}
     for fam in A:
-        if fam not in fams and A[fam] != B[fam]:
-            return "register family %s changes (%#x -> %#x) but no register of it is reported" % (fam, A[fam], B[fam])
+        full = X86_FULL[fam] if isa == "x86" else "x" + fam[1:]
+        if full not in keys and A[fam] != B[fam]:
+            # KernelDG treats a register that is not reported as unchanged
+            if fam in fams:
+                return KNOWN_SUBREG, ("%s changes (%#x -> %#x) because a narrower part of it is written, but it is not reported "
+                                      "(the tracker keeps treating it as unchanged)" % (full, A[fam], B[fam]))
+            return "regchange-unreported-register", "%s changes (%#x -> %#x) but no register of it is reported" % (full, A[fam], B[fam])
     return None
 
 
 def universe(isa):
-    names = (X64 + X32 + ["rdx", "rdi", "rsp"]) if isa == "x86" else (["x%d" % i for i in range(1, 10)] + ["xsp"])
+    names = (X64 + X32 + ["rdx", "rdi", "rsp", "r8"]) if isa == "x86" else (["x%d" % i for i in range(1, 10)] + ["xsp"])
     return sorted({reg_info(isa, n)[0] for n in names})
 
 
@@ -518,8 +567,7 @@ def run_oracle(ctx, isa, line, res, rng):
         for which, d, A, B in (("get_reg_changes", res["full"][1], before, mid), ("get_reg_changes(only_postindexed)", res["post"][1], mid, fin)):
             bad = oracle_check(isa, d, A, B)
             if bad:
-                key = "regchange-wrong-constant" if "reported as" in bad else ("regchange-unreported-register" if "family" in bad else "regchange-malformed")
-                ctx.violation(key, "%s `%s`: %s returns %r -- %s" % (isa, line, which, d, bad), {"regchg": True, "isa": isa, "line": line})
+                ctx.violation(bad[0], "%s `%s`: %s returns %r -- %s" % (isa, line, which, d, bad[1]), {"regchg": True, "isa": isa, "line": line})
                 return True
     return True
 
@@ -586,6 +634,13 @@ def run(ctx):
             continue
         ctx.count()
         e = res["isa_data"]
+        dests, fulls, want_fulls = dest_info(impl, res["form"])
+        if [f.lower() for f in fulls] != want_fulls:
+            ctx.violation(KNOWN_SUBREG, "%s `%s` writes %s: the full-width register(s) %s must be reported as changed beyond reconstruction, "
+                          "the implementation names %s (get_reg_changes -> %r)" % (isa, text, dests, want_fulls, fulls, res["full"][1:]),
+                          {"regchg": True, "isa": isa, "line": text})
+        if want_fulls:
+            kinds["sub_register_write"] = kinds.get("sub_register_write", 0) + 1
         if e is not None and e.operation is not None:
             hit.add((isa,) + impl.idmap[id(e)])
             kinds["operation"] += 1
@@ -657,4 +712,8 @@ def replay(ctx, r):
     for key in ("full", "post"):
         if res[key][0] == "err":
             ctx.violation("regchange-raises", "%s `%s`: get_reg_changes raises %s" % (r["isa"], r["line"], res[key][2]), r)
+    dests, fulls, want_fulls = dest_info(impl, res["form"])
+    if [f.lower() for f in fulls] != want_fulls:
+        ctx.violation(KNOWN_SUBREG, "%s `%s` writes %s: the full-width register(s) %s must be reported as changed beyond reconstruction, "
+                      "the implementation names %s" % (r["isa"], r["line"], dests, want_fulls, fulls), r)
     run_oracle(ctx, r["isa"], r["line"], res, ctx.rng)
